@@ -158,7 +158,7 @@ func (s *Server) processInitial(dctx *dnsContext) (rc resultCode) {
 
 	q := pctx.Req.Question[0]
 	qt := q.Qtype
-	if s.conf.AAAADisabled && qt == dns.TypeAAAA {
+	if qt == dns.TypeAAAA && s.aaaaDisabled() {
 		pctx.Res = s.NewMsgNODATA(pctx.Req)
 
 		return resultCodeFinish
@@ -513,6 +513,15 @@ func (s *Server) processUpstream(dctx *dnsContext) (rc resultCode) {
 	s.setRespAD(pctx, reqWantsDNSSEC)
 
 	return resultCodeSuccess
+}
+
+// aaaaDisabled returns true if the answers to the AAAA requests are disabled in
+// the current settings.  It is safe for concurrent use.
+func (s *Server) aaaaDisabled() (ok bool) {
+	s.serverLock.RLock()
+	defer s.serverLock.RUnlock()
+
+	return s.conf.AAAADisabled
 }
 
 // dnssecEnabled returns true if DNSSEC is enabled in the current settings.  It
